@@ -14,6 +14,20 @@ def force(v):
     return v
 
 
+def no_positions(v):
+    """RawCopy reports where its bytes were (offset1, offset2): positions move when an earlier field is normalised to an encoding of
+    another length, which is not a difference of value (C08 / C14 are about the offsets themselves)"""
+    if callable(v) and not isinstance(v, (dict, list)):
+        v = v()
+    if isinstance(v, dict):
+        keys = set(k for k in v.keys() if not str(k).startswith('_'))
+        drop = {'offset1', 'offset2'} if {'data', 'value', 'offset1', 'offset2', 'length'} <= keys else set()
+        return {k: no_positions(x) for k, x in v.items() if k not in drop and not str(k).startswith('_')}
+    if isinstance(v, (list, tuple)):
+        return [no_positions(x) for x in v]
+    return v
+
+
 @C.oracle('canonical')
 def o_canonical(src, data):
     c = C.get(src)
@@ -30,7 +44,7 @@ def o_canonical(src, data):
         v2 = c.parse(b1)
     except core.ConstructError as e:
         return 'build(parse(%r)) = %r does not parse: %s' % (data, b1, type(e).__name__)
-    if not C.veq(v2, v):
+    if not C.veq(no_positions(v2), no_positions(v)):
         return 'parse(build(parse(%r))) = %r differs from %r' % (data, v2, v)
     try:
         b2 = c.build(v2)
